@@ -4,7 +4,8 @@
    (lists of members in type-hint order, any length), all input dicts and all allocation counters. *)
 From Coq Require Import List String ZArith Bool Arith.
 From Verif Require Import Bind BindProofs PyK BindK4.
-From VerifGen Require K4.
+From Verif Require OptProj K17Proofs BindK17.
+From VerifGen Require K4 K17.
 Import ListNotations.
 Open Scope string_scope.
 Open Scope nat_scope.
@@ -262,4 +263,22 @@ Example C07_invalid_values :
   decode intconv false true invalids [("q", PNone); ("x", PNone)] 0 = OInvalid "q" /\
   decode intconv false true invalids [("q", PFloat 4); ("y", PNone)] 0 =
     OOk [("q", Some (PInt 4)); ("x", Some (PInt 0)); ("y", Some PNone)] 0.
+Proof. repeat split; reflexivity. Qed.
+
+(* ---- (T) the nullability test of the field block is the translated source (kernel K17 =
+        CodeBuilder.is_field_nullable, regenerated every run): for a member whose m_nullty is what the
+        translated code computes from the shape t of its type hint, the translated code applied to t and to
+        the default the builder sees returns exactly Bind.nullable ---- *)
+Theorem C07_nullable_is_code : forall (m: member) (t: OptProj.fty),
+  m_nullty m = BindK17.nullty_code t ->
+  K17.is_field_nullable (K17Proofs.enc_default (BindK17.odflt (seen_default m))) (K17Proofs.enc_fty t)
+  = Ok (KBool (nullable m)).
+Proof. exact BindK17.nullable_is_code. Qed.
+Print Assumptions C07_nullable_is_code.
+
+(* Annotated[...] and Final[...] are seen through, a PEP 695 alias / NewType / bound TypeVar is not *)
+Example C07_nullable_shapes :
+  BindK17.nullty_code (OptProj.TyAnnotated (OptProj.TyFinal OptProj.TyOptional)) = true /\
+  BindK17.nullty_code OptProj.TyUnionNone = true /\ BindK17.nullty_code OptProj.TyAny = true /\
+  BindK17.nullty_code (OptProj.TyAnnotated OptProj.TyPlain) = false /\ BindK17.nullty_code OptProj.TyPlain = false.
 Proof. repeat split; reflexivity. Qed.
